@@ -82,6 +82,8 @@ def gen_program(rng):
         if r < 0.55:
             prog.append(("conn", [("begin", gen_conn_steps(rng, 0, ids), rng.choice(["commit", "commit", "rollback", "raise"]))
                                   for _ in range(rng.randint(1, 2))]))
+        elif r < 0.62:
+            prog.append(("conn_iso", [("insert", next(ids), "i"), ("select_scalar",)][: rng.randint(1, 2)]))
         elif r < 0.75:
             prog.append(("conn_autobegin", gen_conn_steps(rng, 0, ids, allow_nested=False), rng.choice(["commit", "rollback", "none"])))
         else:
@@ -209,6 +211,14 @@ def run_sync_program(sa, orm, t, Row, path, prog):
                             out.append(("boom",))
                         except sa.exc.IntegrityError:
                             out.append(("txn-integrity",))
+            elif block[0] == "conn_iso":
+                txn_no += 1
+                with eng.connect() as conn:
+                    c2 = conn.execution_options(isolation_level="AUTOCOMMIT")
+                    try:
+                        conn_steps(c2, block[1], txn_no)
+                    except sa.exc.IntegrityError:
+                        out.append(("txn-integrity",))
             elif block[0] == "conn_autobegin":
                 txn_no += 1
                 with eng.connect() as conn:
@@ -341,6 +351,16 @@ async def run_async_program(sa, orm, aio, t, Row, eng, prog, ar):
                             out.append(("boom",))
                         except sa.exc.IntegrityError:
                             out.append(("txn-integrity",))
+            elif block[0] == "conn_iso":
+                txn_no += 1
+                async with eng.connect() as conn:
+                    c2 = await conn.execution_options(isolation_level="AUTOCOMMIT")
+                    try:
+                        await conn_steps(c2, block[1], txn_no)
+                        # autocommit: each statement is its own committed transaction
+                        ar.txns.pop(txn_no, None)
+                    except sa.exc.IntegrityError:
+                        out.append(("txn-integrity",))
             elif block[0] == "conn_autobegin":
                 txn_no += 1
                 async with eng.connect() as conn:
@@ -482,6 +502,13 @@ async def post_checks(ctx, sa, eng, ar, path, prog, k, outcome, desc):
     idle = [r.dbapi_connection for r in list(pool._pool._queue._queue) if getattr(r, "dbapi_connection", None) is not None] \
         if hasattr(pool._pool, "_queue") else []
     for raw in idle:
+        try:
+            lvl = raw.isolation_level
+        except Exception:
+            lvl = ""
+        if lvl is None:
+            ctx.violation("cancel-idle-connection-left-in-autocommit",
+                          f"idle pooled connection has driver isolation_level=None (AUTOCOMMIT of a previous checkout), suspension {k}", desc)
         if raw_in_transaction(raw):
             ctx.violation("cancel-idle-connection-in-transaction", f"idle pooled connection is inside a transaction, suspension {k}", desc)
     ctx.count("idle_connections_inspected", len(idle))
